@@ -50,7 +50,7 @@ class Job:
                  unwind=None, unwindset=(), solver='sat', kind='proof', bound=None, timeout=600,
                  cbmc_flags=(), loop_contracts=None, functions=(), ops=None, object_bits=None,
                  no_standard_checks=False, note='', replay=None, incdirs=(), expect_reach=None,
-                 enforce_more=()):
+                 enforce_more=(), fallback=None):
         self.name = name
         self.harness = harness
         self.entry = entry
@@ -75,6 +75,7 @@ class Job:
         self.replay = replay
         self.incdirs = list(incdirs)
         self.expect_reach = expect_reach
+        self.fallback = fallback
 
 
 SOLVER_FLAGS = {
@@ -98,6 +99,9 @@ def classify(prop, desc):
         return 'A'
     if re.search(r'Check invariant|Check variant|loop invariant|decreases clause|loop assigns', desc, re.I):
         return 'A'
+    if 'ptr NULL or writable up to size' in desc:
+        # DFCC's check that an assignment target is a valid writable location: memory safety
+        return 'P'
     if p.startswith('__CPROVER_contracts') or p.startswith('__CPROVER_'):
         # DFCC library internal bookkeeping
         return 'A'
